@@ -157,11 +157,10 @@ def _reference_blocks(path, kind):
         for bt, blk in parse_blocks(src, to="cellgrid"):
             c0 = blk[0][0] if isinstance(blk, list) and blk and blk[0] else None
             name = ""
-            if isinstance(c0, str):
-                if c0.startswith("***"):
-                    name = c0[3:].strip()
-                elif c0.startswith("**"):
-                    name = c0[2:].strip()
+            if isinstance(c0, str) and c0.startswith("**"):
+                name = c0.lstrip("*").strip()
+            elif isinstance(getattr(blk, "name", None), str):
+                name = blk.name                      # Directive objects (only TABLE is a cell grid in this mode)
             seq.append((bt.name, name, src.exhausted))
         out.append((title, seq))
     return out
@@ -250,14 +249,21 @@ def gen_scenario(rng, api, inject):
                                 b["bad"] = True
         else:
             inject = "none"
+    has_include = any(b.get("d") == "include" for f in files for sh in f["sheets"] for b in sh["blocks"])
+    folder = api == "load_files" and not has_include and rng.random() < 0.5
     return {"api": api, "inject": inject, "target": target, "files": files, "roots": roots, "pattern": pattern,
-            "str_path": rng.random() < 0.5}
+            "str_path": rng.random() < 0.5, "folder": folder}
 
 
-def _read_order(sc):
-    """load_files: the order in which queued_load pops the work list (LIFO; includes are pushed while reading)"""
+def _read_order(sc, scratch=None):
+    """load_files: the order in which queued_load pops the work list (LIFO; includes are pushed while reading;
+    a folder root pushes its files in the order in which the directory lists them)"""
     by_name = {f["name"]: f for f in sc["files"]}
-    stack = [sc["files"][i] for i in sc["roots"]]
+    if sc.get("folder"):
+        import pathlib
+        stack = [by_name[p.name] for p in pathlib.Path(scratch).iterdir() if p.name in by_name]
+    else:
+        stack = [sc["files"][i] for i in sc["roots"]]
     order = []
     while stack:
         f = stack.pop()
@@ -270,7 +276,7 @@ def _read_order(sc):
     return order
 
 
-def build_model_prog(sc, refs):
+def build_model_prog(sc, refs, scratch=None):
     """the program shape sent to the Lean model + (number of delivered blocks, index of the failing delivery)"""
     inject, target, pattern = sc["inject"], sc["target"], sc["pattern"]
     raising = inject in ("cell", "tracker_raise", "filter_raise")
@@ -302,8 +308,8 @@ def build_model_prog(sc, refs):
 
     api = sc["api"]
     if api == "load_files":
-        fl = []
-        for f in _read_order(sc):
+        fl = [{"kind": "folder"}] if sc.get("folder") else []
+        for f in _read_order(sc, scratch):
             sheets = file_points(f, True)
             keep = [k for _, pts in sheets for k, _ in pts]
             if f["kind"] == "csv":
@@ -444,6 +450,8 @@ def make_reader(sc, paths, obs):
         kw["filter"] = lambda bt, name: name != target
     stream = None
     if api == "load_files":
+        if sc.get("folder"):
+            return load_files([obs.scratch], **kw), None
         return load_files([paths[i] for i in sc["roots"]], **kw), None
     p = paths[0]
     mode = api.split(":")[1]
@@ -679,6 +687,7 @@ def _compare(states, model, out, what, case):
 def _scenario_case(sc, k, term, history):
     return {"kind": "reader", "api": sc["api"], "inject": sc["inject"], "target": sc["target"],
             "pattern": sc["pattern"], "roots": sc["roots"], "files": sc["files"], "str_path": sc.get("str_path", True),
+            "folder": sc.get("folder", False),
             "prefix": k, "end": term,
             "history": history}
 
@@ -688,7 +697,17 @@ def run_scenario(sc, rng, full, out, ops, pend, model_ok):
     try:
         paths = {f["id"]: _write_file(scratch, f) for f in sc["files"]}
         refs = {f["id"]: _reference_blocks(paths[f["id"]], f["kind"]) for f in sc["files"]}
-        prog, total, fail_at = build_model_prog(sc, refs)
+        prog, total, fail_at = build_model_prog(sc, refs, scratch)
+        if sc.get("folder"):
+            out.count("load_files:folder_root")
+        if any(b.get("d") == "include" for f in sc["files"] for sh in f["sheets"] for b in sh["blocks"]):
+            out.count("load_files:include_directive" if sc["api"] == "load_files" else "include_directive_not_followed")
+        for f in sc["files"]:
+            for title, seq in refs[f["id"]]:
+                if f["kind"] == "xlsx":
+                    out.count("xlsx_sheet:" + ("skipped" if sc["pattern"] and not title.startswith(sc["pattern"])
+                                               else "empty" if not seq else "last_block_after_rows_exhausted"
+                                               if seq[-1][2] else "all_blocks_before_rows_exhausted"))
         out.count("api:" + sc["api"])
         out.count("inject:" + sc["inject"])
         out.count("blocks:%d" % min(total, 9))
@@ -754,7 +773,7 @@ def run(tier, seed, model_ok, translator, search=False):
                 "format / cell, not a Table}. Non-trivial: >= 2 blocks (readers), >= 2 tables and a failure (writers).")
     rng = make_rng(seed, "C19")
     full = tier == "thorough"
-    per_api = 9 if full else 3
+    per_api = 70 if full else 8
     ops, pend = [], []
     gc_was = gc.isenabled()
     gc.collect()
@@ -805,7 +824,7 @@ def replay(rep):
             states, rw = run_writer(inp["api"], inp["dst"], inp["n"], inp["fail_at"], inp["how"], scratch)
             oracle_writer(inp["api"], states, rw, out, inp)
         else:
-            sc = {k: inp.get(k) for k in ("api", "inject", "target", "pattern", "roots", "files", "str_path")}
+            sc = {k: inp.get(k) for k in ("api", "inject", "target", "pattern", "roots", "files", "str_path", "folder")}
             paths = {f["id"]: _write_file(scratch, f) for f in sc["files"]}
             states, rw = run_reader_history(sc, paths, scratch, inp["history"])
             oracle_reader(sc, inp.get("prefix"), inp.get("end"), inp["history"], states, rw, out, inp)
